@@ -18,7 +18,8 @@ RULE_TEXT = ("ENUMERATED starting states x configurations: fresh file; database 
              "Crash fault: for every starting state the migration run is also executed in a forked child that is killed "
              "(os._exit) at the j-th SQL statement, j ENUMERATED over all statements of that run; the parent reopens the file "
              "(real SQLite journal/WAL recovery) and migrates. Each (start, sources, mode, crash point) is one evaluation; "
-             "non-trivial = the start state is not the final schema; distinct = case id.")
+             "non-trivial = the start state is not the final schema; distinct = case id."
+             " After each uncrashed case the starting state is restored over the already migrated path (file deleted / older image written) and migrated again in the same process.")
 COMPONENTS = {"real": ["sqlite/migrate.run_migrations, migration_utils, SqliteWorkflowStore._run_migrations, packaged .sql files of server and dbos, stdlib sqlite3 + real files, real process kill"],
               "stub": [], "sim": ["case enumerator"]}
 ASSUMPTIONS = ["process crash only (kill at a statement boundary); power loss / torn pages are out of scope",
